@@ -25,6 +25,21 @@ var gateSpecs = []gateSpec{
 	{"func:CheckMnemonic", "wcGate", "ErrWordLen"},
 }
 
+// gateConsts: package-level `const name [int] = <integer literal>` of the root package (set by main).
+var gateConsts = map[string]string{}
+
+func collectGateConsts(files map[string]*ast.File) {
+	ct := newConstTable(files)
+	for name := range ct.exprs {
+		if ct.typ[name] != "untyped" && ct.typ[name] != "int" {
+			continue
+		}
+		if v, ok := ct.lookup(name); ok {
+			gateConsts[name] = v.String()
+		}
+	}
+}
+
 type gateResult struct {
 	lean     string
 	arith    bool
@@ -94,9 +109,17 @@ func translateGate(e ast.Expr, vars map[string]bool, res *gateResult) string {
 		if vars[x.Name] {
 			return "n"
 		}
+		// a package-level integer constant given by a literal (a magic number that was given a name)
+		if v, ok := gateConsts[x.Name]; ok {
+			return "(" + v + " : Int)"
+		}
 	case *ast.CallExpr:
 		if id, ok := x.Fun.(*ast.Ident); ok && id.Name == "len" && len(x.Args) == 1 {
 			return "n"
+		}
+		// int(e), int64(e) of an int expression: the same value (these appear when a helper was inlined)
+		if id, ok := x.Fun.(*ast.Ident); ok && (id.Name == "int" || id.Name == "int64") && len(x.Args) == 1 {
+			return translateGate(x.Args[0], vars, res)
 		}
 	case *ast.UnaryExpr:
 		switch x.Op {
